@@ -194,6 +194,10 @@ instance (eq mod : String) (new : Bytes) (o : PlaceObs) : Decidable (SavedWherev
 /-- monitor -/
 def savedWhereverB (eq mod : String) (new : Bytes) (o : PlaceObs) : Bool := decide (SavedWherever eq mod new o)
 
+/-- the listing of a model file system over the paths `ps` (what the harness records of the real tree) -/
+def treeOf (fs : FS Path) (ps : List Path) : List (Path × Bytes) :=
+  ps.filterMap (fun p => (fs p).map (fun b => (p, b)))
+
 /-- monitor, for the report: the files of the tree that are not the persistent file -/
 def strayFiles (eq mod : String) (tree : List (Path × Bytes)) : List Path :=
   (tree.filter (fun e => !decide (e.1 = persistentFile eq mod))).map (·.1)
